@@ -34,7 +34,7 @@ var Prop = &engine.Prop{
 		"JsUnixTime/Unix2Time carry whole seconds: the round trip is required to give back the unix second, not the sub-second part",
 		"SQL Scan is exercised only with the Go types the Scan methods name (integers in int64 range, time.Time, string/[]byte); other driver types are outside the property's quantifier",
 	},
-	ShardsQuick: 4, ShardsThorough: 16,
+	ShardsQuick: 12, ShardsThorough: 16,
 	Kinds: []engine.Kind{
 		// must stay first: its first case in a process makes the first encoder calls of that process
 		{Name: "cold_start", Quick: 32, Thorough: 64, Fn: coldStartCase},
